@@ -315,6 +315,44 @@ fn judge(s: &Spec, idx: u64, rec: &mut Recorder) {
                         if n != s.tlvs.len() {
                             return Err(format!("{} TLVs parsed back, {} written", n, s.tlvs.len()));
                         }
+                        // "the same TLV sequence in the same order", however the reader consumes
+                        // it: the first k items with next(), the rest through count / last /
+                        // collect; and handed on to the next hop: the header built from the parsed
+                        // parts (the section given as the TypeLengthValues value the reader holds,
+                        // which stands for the whole section wherever its cursor is) is the same
+                        // wire encoding again
+                        if s.tlvs.len() <= 64 {
+                            let total = s.tlvs.len();
+                            for k in [0usize, 1, total / 2, total] {
+                                if k > total {
+                                    continue;
+                                }
+                                let mut it = hd.tlvs();
+                                for _ in 0..k {
+                                    let _ = it.next();
+                                }
+                                let c = it.clone().count();
+                                if c != total - k {
+                                    return Err(format!("after {} next() calls count() says {} of {} TLVs are left", k, c, total));
+                                }
+                                match (it.clone().last(), s.tlvs.last()) {
+                                    (None, _) if k == total => {}
+                                    (Some(Ok(t)), Some((kind, _, b))) if k < total && t.kind == *kind && t.value.as_ref() == b.bytes().as_slice() => {}
+                                    (other, _) => return Err(format!("after {} next() calls last() gives {:?}", k, other.map(|r| r.map(|t| (t.kind, t.value.len())).map_err(|e| format!("{:?}", e))))),
+                                }
+                                let rest: Vec<(u8, usize)> = it.clone().filter_map(|r| r.ok()).map(|t| (t.kind, t.value.len())).collect();
+                                let want_rest: Vec<(u8, usize)> = s.tlvs[k..].iter().map(|(kind, _, b)| (*kind, b.len)).collect();
+                                if rest != want_rest {
+                                    return Err(format!("after {} next() calls the rest of the sequence is {:?}, written {:?}", k, &rest[..rest.len().min(6)], &want_rest[..want_rest.len().min(6)]));
+                                }
+                                let again = v2::Builder::with_addresses(hd.version | hd.command, hd.protocol, hd.addresses).write_payload(it).and_then(|b| b.build());
+                                match again {
+                                    Ok(b2) if b2 == bytes => {}
+                                    Ok(b2) => return Err(format!("rebuilt from the parsed parts (TLV iterator advanced {} times) the header has {} bytes, length field {:?}; the original has {}", k, b2.len(), &b2[14..16], bytes.len())),
+                                    Err(e) => return Err(format!("rebuilding from the parsed parts fails: {:?}", e.kind())),
+                                }
+                            }
+                        }
                     }
                     Ok(())
                 });
